@@ -40,6 +40,10 @@ OPS = [
     ("engine-reuse/german-metadata html", "E0", b"Title: G\nLanguage: de\nQuotes Language: fr\nBase Header Level: 3\nfoo: bar\n\n# H\n\n\"q\" 'r' text[^a] [%foo]\n\n[^a]: n\n", D, 0),
     ("engine-reuse/bare html", "E0", b"# Head\n\n\"q\" 'r' text[^a] more[#c] [?g] [>ab] -- [%foo] [l]\n\n[^a]: n\n\n[#c]: C\n\n[?g]: G\n\n[>ab]: AB\n\n[l]: http://x.y/\n\n| a |\n|---|\n| b |\n", D, 0),
     ("engine-reuse/bare latex", "E0", b"Second\n======\n\n\"q\" text[^b] see [Second][]\n\n[^b]: m\n", D, 2),
+    # the caller switches the engine's language between conversions (6th field: language code passed to mmd_engine_set_language first)
+    ("engine-reuse/set-language german", "E0", b"\"q\" 'r' german text[^a]\n\n[^a]: n\n", D, 0, 2),
+    ("engine-reuse/set-language hebrew", "E0", b"\"q\" 'r' hebrew text[^a] [#c]\n\n[^a]: n\n\n[#c]: C\n", D, 0, 6),
+    ("engine-reuse/set-language english", "E0", b"\"q\" 'r' english text\n", D, 0, 0),
     ("engine-reuse/bom html", "E0", b"\xef\xbb\xbfTitle: B\n\n# H\n\ntext\n", D, 0),
     ("engine-reuse/latex-mode-metadata latex", "E0", b"Title: B\nlatex mode: beamer\nlatex header level: 2\n\n# S\n\n## F\n\ntext\n", D, 2),
 ]
@@ -51,7 +55,7 @@ def run_history(hist, want_all=False, perturb=0):
     L = mmd.lib(); L.vp_pool(0)
     engine = None; res = []
     for oi in hist:
-        name, kind, src, ext, fmt = OPS[oi]
+        name, kind, src, ext, fmt = OPS[oi][:5]; lang = OPS[oi][5] if len(OPS[oi]) > 5 else None
         if kind == "s":
             out = mmd._take(L.vp_raw_convert(src, ext, fmt, 0)); same = True
         elif kind == "d":
@@ -61,6 +65,7 @@ def run_history(hist, want_all=False, perturb=0):
         else:
             if engine is None: engine = L.vp_engine_new_d(src, ext)
             else: L.vp_engine_set_text(engine, src)
+            L.vp_engine_set_language(engine, lang or 0)        # the language an engine was given persists by design: every operation states its own
             if kind == "E0": out = mmd._take(L.vp_engine_convert(engine, fmt))
             elif kind == "E1": out = mmd._take(L.vp_engine_parse_export(engine, fmt))
             else:
